@@ -1,5 +1,6 @@
 (* C02 — assignments never lose, duplicate or reorder matched values. *)
-From TxV Require Import Core.Base Model.MultBase Gen.SrcMult Model.Mult Proofs.MultProofs Proofs.MultFlowProofs Proofs.MultRealProofs.
+From TxV Require Import Core.Base Model.MultBase Gen.SrcMult Model.Mult Proofs.MultProofs Proofs.MultFlowProofs Proofs.MultRealProofs Proofs.MultSepProofs.
+From TxV Require Model.Build Model.PegSyntax Model.Peg Model.MultPeg Proofs.MultPegProofs Proofs.MultPegWitness.
 
 (* An attribute is a list exactly when one object can collect more than one value for it:
    `infer` is the multiplicity inference of the current source (visit_assignment's operator table followed by
@@ -61,6 +62,49 @@ Theorem C02_no_silent_overwrite : forall b a t d,
 Proof. exact no_silent_overwrite. Qed.
 Print Assumptions C02_no_silent_overwrite.
 
+(* Separators.  The children of a `*=`/`+=` node are the nodes of the matched elements and of the matched separators; a
+   separator that matched the empty string leaves no node, so elements and separators need not alternate.  With the
+   way the current source tells them apart (src_sep_mode, translated from model.py's list handler), the handler stores
+   exactly the element values, in order, whatever the arrangement of the children. *)
+Theorem C02_separators_never_stored : forall hs cs,
+  (hs = false -> forallb (fun c => negb (c_sep c)) cs = true) ->
+  child_values src_sep_mode hs cs = elem_values cs.
+Proof. exact separators_never_stored. Qed.
+Print Assumptions C02_separators_never_stored.
+
+(* Telling separators by position (every odd-indexed child) loses a value and stores separator text once a separator
+   matched empty: children 1 2 "," 3 give [1; ","].  Telling them by the rule name "sep" drops every value matched by a
+   grammar rule called `sep`. *)
+Theorem C02_positional_separator_skip_refuted :
+  elem_values sep_witness = [SInt 1; SInt 2; SInt 3]
+  /\ child_values SepByPosition true sep_witness = [SInt 1; SStr [44%N]].
+Proof. exact positional_skip_refuted. Qed.
+Print Assumptions C02_positional_separator_skip_refuted.
+
+Theorem C02_separator_by_name_refuted :
+  elem_values [Child false true (SInt 1)] = [SInt 1] /\ child_values SepByName false [Child false true (SInt 1)] = [].
+Proof. exact by_name_refuted. Qed.
+Print Assumptions C02_separator_by_name_refuted.
+
+(* Value flow stated on parse-tree nodes (attribute, operator, children tagged element/separator): what ends up in the
+   attribute is exactly what the elements of the assignments matched - no separator text, nothing lost - in order. *)
+Theorem C02_values_in_order_nodes : forall b a ns d,
+  grammar_ok b = true -> forallb node_wf ns = true -> emits b (map (node_ev src_sep_mode) ns) -> truthy d = false ->
+  build a (init_val (infer b a) d) (map (node_ev src_sep_mode) ns)
+  = Ok (if is_list (infer b a) then AList (node_values a ns)
+        else AScalar (match node_values a ns with [] => d | v :: _ => v end))
+  /\ (is_list (infer b a) = false -> length (node_values a ns) <= 1).
+Proof. exact values_in_order_nodes. Qed.
+Print Assumptions C02_values_in_order_nodes.
+
+Example C02_nonvacuous_nodes :
+  grammar_ok witness_body2 = true /\ forallb node_wf witness_nodes = true
+  /\ emits witness_body2 (map (node_ev src_sep_mode) witness_nodes)
+  /\ build 0 (init_val (infer witness_body2 0) (SInt 0)) (map (node_ev src_sep_mode) witness_nodes)
+     = Ok (AList [SInt 0; SInt 1; SInt 2; SInt 3]).
+Proof. exact nonvacuous_nodes. Qed.
+Print Assumptions C02_nonvacuous_nodes.
+
 (* The inference as it was before the repair (every branch of an ordered choice got a fresh, empty set of seen
    assignments that was dropped afterwards) violates the statement: witness_body = `(a=X | b=X) a=X`. *)
 Theorem C02_prefix_inference_refuted :
@@ -95,3 +139,49 @@ Example C02_nonvacuous_list :
   /\ is_list (infer (BUnord [BOpt (BAsg 0 OpPlain); BAsg 0 OpPlain]) 0) = true.
 Proof. exact nonvacuous_list. Qed.
 Print Assumptions C02_nonvacuous_list.
+
+(* ---------------------------------------------------------------- link to the interpreter model (shared PEG core)
+   `emits` is a hypothesis of the value-flow theorems above.  Here it is discharged against Model/Peg.v, the model of
+   the Arpeggio interpreter that is validated against the real parser by C19/C01:  whenever the parsing-expression
+   node nid of a parser model g (any node table; mm = what model.py reads off each node; any oracle for the terminals,
+   any input, any parser state, any fuel) has the structure of the rule body b (`den ... true b nid`, a decidable check
+   that the correspondence evaluates on the parser model textX really built), and the interpreter (memoization off)
+   returns a result for that node, then the assignment nodes below the NonTerminal it built for the rule - not
+   descending into the NonTerminals of other rules, whose assignments belong to other objects - are a trace that b
+   emits.  Covers sequence, ordered choice (including Arpeggio's "a None alternative is not a match" quirk), optional,
+   * and + with separators, unordered groups, the four assignment operators, predicates and rule references. *)
+Theorem C02_parse_result_is_trace :
+  forall g mm attr_id conv input orc b nid fuel psq s r s',
+  MultPeg.den g mm attr_id true b nid = true ->
+  Peg.parse g input orc false fuel nid psq s = Peg.Ok r s' ->
+  emits b (map (node_ev src_sep_mode) (MultPeg.top_nodes g mm attr_id conv r)).
+Proof. exact MultPegProofs.peg_result_is_trace. Qed.
+Print Assumptions C02_parse_result_is_trace.
+
+(* End to end on the interpreter model: for every accepted rule body and every parse result of its node, model.py's
+   assignment handler leaves in each attribute exactly the values matched by the elements of its assignments, in
+   input order (a list), or the single value / the default with at most one value matched. *)
+Theorem C02_parsed_values_in_order :
+  forall g mm attr_id conv input orc b nid fuel psq s r s' a d,
+  MultPeg.den g mm attr_id true b nid = true -> grammar_ok b = true ->
+  Peg.parse g input orc false fuel nid psq s = Peg.Ok r s' -> truthy d = false ->
+  let ns := MultPeg.top_nodes g mm attr_id conv r in
+  build a (init_val (infer b a) d) (map (node_ev src_sep_mode) ns)
+  = Ok (if is_list (infer b a) then AList (node_values a ns)
+        else AScalar (match node_values a ns with [] => d | v :: _ => v end))
+  /\ (is_list (infer b a) = false -> length (node_values a ns) <= 1).
+Proof. exact MultPegProofs.parsed_values_in_order. Qed.
+Print Assumptions C02_parsed_values_in_order.
+
+(* non-vacuity: the parser model dumped from `Model: (a=INT | b=INT) a+=INT[/,?/];` has the structure of its body, and
+   the interpreter's result on `1 2 , 3` yields the events a=<1>, a+=<2,3> (values shown by their positions 0, 2, 6;
+   the separator node "," at 4 is not among them) *)
+Example C02_nonvacuous_link :
+  MultPeg.den MultPegWitness.wit_g MultPegWitness.wit_mm MultPegWitness.wit_attr true MultPegWitness.wit_body MultPegWitness.wit_nid = true
+  /\ grammar_ok MultPegWitness.wit_body = true
+  /\ exists r s', Peg.parse MultPegWitness.wit_g MultPegWitness.wit_input (Peg.orc_of MultPegWitness.wit_tbl) false 50
+                            MultPegWitness.wit_nid true (Peg.init_st MultPegWitness.wit_cfg) = Peg.Ok r s'
+     /\ map (node_ev src_sep_mode) (MultPeg.top_nodes MultPegWitness.wit_g MultPegWitness.wit_mm MultPegWitness.wit_attr MultPegWitness.wit_conv r)
+        = [Ev 0 OpPlain [SInt 0]; Ev 0 OpPlus [SInt 2; SInt 6]].
+Proof. exact MultPegWitness.wit_link. Qed.
+Print Assumptions C02_nonvacuous_link.
